@@ -47,6 +47,8 @@ type FuncContract struct {
 	Requires     []*Clause
 	Ensures      []*Clause
 	Unclaimed    map[string]string
+	GuardLock    string   // "guarded <lock>: A.B, C.D": calls of the named methods happen only while <lock> is held
+	GuardNames   []string
 	Panics       []*Clause // "panics when cond": reaching a panic is allowed only under cond ... informational
 	NoPanic      []*Clause
 	Modifies     []string
@@ -88,7 +90,16 @@ type SpecFunc struct {
 	Axioms []*Clause
 }
 
+type Census struct {
+	PkgPrefix string
+	Names     []string
+	Props     []string
+	File      string
+	Line      int
+}
+
 type Contracts struct {
+	Censuses []*Census
 	Funcs   map[string]*FuncContract // pkg + "::" + key
 	Lemmas  []*Lemma
 	Specs   map[string]*SpecFunc // pkg + "::" + name ; also "::"+name for global
@@ -97,7 +108,7 @@ type Contracts struct {
 }
 
 var clauseKeywords = map[string]bool{
-	"func": true, "lemma": true, "spec": true, "returns": true, "requires": true, "ensures": true, "exit": true, "unclaimed": true,
+	"func": true, "lemma": true, "spec": true, "returns": true, "requires": true, "ensures": true, "exit": true, "unclaimed": true, "guarded": true, "census": true,
 	"invariant": true, "decreases": true, "modifies": true, "pure": true, "loop": true, "callback": true,
 	"panics": true, "forkjoin": true, "trusted": true, "nopanic": true, "axiom": true, "props": true,
 	"package": true, "ghost": true, "using": true, "opaque": true, "footprint": true,
@@ -287,6 +298,38 @@ func (cs *Contracts) loadFile(path, pkg string) error {
 				return err
 			}
 			curS.Axioms = append(curS.Axioms, c)
+		case "guarded":
+			if curF == nil {
+				return fail("guarded outside func")
+			}
+			lock, names, ok := strings.Cut(rc.text, ":")
+			if !ok {
+				return fail("guarded: expected <lock>: names")
+			}
+			curF.GuardLock = strings.TrimSpace(lock)
+			for _, n := range strings.FieldsFunc(names, func(r rune) bool { return r == ',' || r == ' ' }) {
+				curF.GuardNames = append(curF.GuardNames, n)
+			}
+		case "census":
+			// "census <package path prefix> [C13]: A.B, C.D" — every call of a named method inside those packages
+			// must sit in a function whose contract guards it
+			head, names, ok := strings.Cut(rc.text, ":")
+			if !ok {
+				return fail("census: expected <pkgprefix>: names")
+			}
+			cn := &Census{File: rc.file, Line: rc.line}
+			hf := strings.Fields(head)
+			if len(hf) == 0 {
+				return fail("census: missing package prefix")
+			}
+			cn.PkgPrefix = hf[0]
+			for _, h := range hf[1:] {
+				cn.Props = append(cn.Props, strings.Trim(h, "[],"))
+			}
+			for _, n := range strings.FieldsFunc(names, func(r rune) bool { return r == ',' || r == ' ' }) {
+				cn.Names = append(cn.Names, n)
+			}
+			cs.Censuses = append(cs.Censuses, cn)
 		case "unclaimed":
 			// "unclaimed <obligation kind>: reason" — obligations of that kind in this unit are generated and
 			// solved but not claimed for the unit's properties (the reason is reported in the evidence)
